@@ -29,13 +29,14 @@ class Stats:
         self.solver_s = 0.0
         self.steps = 0
         self.forks = 0
+        self.nontrivial = 0
         self.functions = set()
         self.models_used = set()
         self.overflow_sites = set()
 
     def as_dict(self):
         return dict(paths=self.paths, queries=self.queries, sat=self.sat, unsat=self.unsat, unknown=self.unknown,
-                    solver_s=round(self.solver_s, 3), steps=self.steps, forks=self.forks)
+                    solver_s=round(self.solver_s, 3), steps=self.steps, forks=self.forks, nontrivial=self.nontrivial)
 
 
 class Program:
@@ -201,6 +202,9 @@ class Explorer:
                 self.inconclusive.append('internal error: %s' % outcome[1])
             if outcome[0] != 'infeasible':
                 self.stats.paths += 1
+                if ex.decisions and ex.pc:
+                    # the path was selected among alternatives by the solver and carries a non-empty path condition
+                    self.stats.nontrivial += 1
                 if on_path:
                     on_path(ex, outcome)
             self.solver.pop()
